@@ -920,6 +920,174 @@ class ProcFn:
         return f"Definition gen_{fd.name} {ps} : result gen_url :=\n  {body}.", (["str"] * len(params), "gen_url")
 
 
+class MethFn(ProcFn):
+    """Methods of class URL that read the object (yarl/_url.py: __str__, __eq__, _cmp_val and the
+    four ordering operators).  [self] (and a second URL [other]) is a MODEL url value:
+    [x._scheme] ... [x._fragment] are its stored strings; the cached properties listed in PROPS are
+    the model's accessors, which may raise: every use is bound (in source order) before the
+    statement that uses it, and [(n := self.prop)] binds n as well.  [n == DEFAULT_PORTS.get(s)] is
+    the table lookup of the regenerated DEFAULT_PORTS.  [if type(other) is not URL: return
+    NotImplemented] is type dispatch and is skipped (the second operand is a URL by assumption:
+    the 'never equal to a non-URL' clause is probed on the implementation).  Tuples of str are
+    lists; [<=] [<] [>=] [>] on them are Python's lexicographic comparisons (GenTypes.tuple_*).
+    Return types are declared per method: [result str], [bool], [list str]."""
+
+    STORED = {"_scheme": "u_scheme", "_netloc": "u_netloc", "_path": "u_path", "_query": "u_query", "_fragment": "u_fragment"}
+    PROPS = {"explicit_port": ("explicit_port", "optint"), "host_subcomponent": ("host_subcomponent", "optstr"),
+             "raw_user": ("raw_user", "optstr"), "raw_password": ("raw_password", "optstr")}
+    CALLEES = dict(ProcFn.CALLEES)
+    CALLEES["make_netloc"] = ("make_netloc' B", [("user", "optstr", None), ("password", "optstr", None), ("host", "optstr", None),
+                                                ("port", "optint", None), ("encode", "bool", "false")], "str", False)
+    CALLEES["unsplit_result"] = ("unsplit_result", [("scheme", "str", None), ("netloc", "str", None), ("url", "str", None),
+                                                    ("query", "str", None), ("fragment", "str", None)], "str", False)
+
+    def __init__(self, rett, methods):
+        self.rett = rett          # "rstr" | "bool" | "strs"
+        self.methods = methods    # name -> return type of methods translated so far
+        self.fresh = 0
+
+    def expr(self, e, env):
+        if isinstance(e, ast.Attribute) and isinstance(e.value, ast.Name) and env.get(e.value.id) == "url" and e.attr in self.STORED:
+            return f"({self.STORED[e.attr]} {e.value.id})", "str"
+        if isinstance(e, ast.Tuple) and e.elts:
+            parts = [self.expr(x, env) for x in e.elts]
+            if any(t != "str" for _, t in parts):
+                raise Untranslatable("tuple of non-str: " + ast.unparse(e))
+            return "[" + "; ".join(x for x, _ in parts) + "]", "strs"
+        if isinstance(e, ast.Call) and isinstance(e.func, ast.Attribute) and isinstance(e.func.value, ast.Name) \
+                and env.get(e.func.value.id) == "url" and e.func.attr in self.methods and not e.args and not e.keywords:
+            if self.methods[e.func.attr] == "rstr":
+                raise Untranslatable("call of a method that may raise: " + ast.unparse(e))
+            return f"(gen_{e.func.attr.strip('_')} {e.func.value.id})", self.methods[e.func.attr]
+        if isinstance(e, ast.BoolOp) or isinstance(e, ast.Compare) or (isinstance(e, ast.UnaryOp) and isinstance(e.op, ast.Not)):
+            return self.cond_bool(e, env), "bool"
+        return super().expr(e, env)
+
+    def cond_bool(self, test, env):
+        if isinstance(test, ast.Compare) and len(test.ops) == 1:
+            op, l, r = test.ops[0], test.left, test.comparators[0]
+            # n == DEFAULT_PORTS.get(scheme)
+            if isinstance(op, ast.Eq) and isinstance(r, ast.Call) and ast.unparse(r.func) == "DEFAULT_PORTS.get" and len(r.args) == 1:
+                a, ta = self.expr(l, env)
+                b, tb = self.expr(r.args[0], env)
+                if ta == "int" and tb == "str":
+                    return f"(opt_N_eqb (Some {a}) (default_port {b}))"
+                raise Untranslatable("comparison " + ast.unparse(test))
+            if isinstance(op, (ast.Eq, ast.NotEq, ast.Lt, ast.LtE, ast.Gt, ast.GtE)):
+                try:
+                    a, ta = self.expr(l, env)
+                    b, tb = self.expr(r, env)
+                except Untranslatable:
+                    a = None
+                if a is not None and ta == tb == "str" and isinstance(op, (ast.Eq, ast.NotEq)):
+                    t = f"(str_eqb {a} {b})"
+                    return t if isinstance(op, ast.Eq) else f"(negb {t})"
+                if a is not None and ta == tb == "strs":
+                    f = {ast.Eq: "key_eqb", ast.Lt: "tuple_lt", ast.LtE: "tuple_le", ast.Gt: "tuple_gt", ast.GtE: "tuple_ge"}.get(type(op))
+                    if f:
+                        return f"({f} {a} {b})"
+        if isinstance(test, ast.Attribute):
+            a, ta = self.expr(test, env)
+            if ta == "str":
+                return f"(nonempty {a})"
+        return super().cond_bool(test, env)
+
+    # ---- hoisting of property reads (they may raise) out of a statement
+    def hoist(self, node, env, binds):
+        """rewrites node: every self.<prop> becomes a fresh name bound before the statement"""
+        tr = self
+
+        class H(ast.NodeTransformer):
+            def visit_NamedExpr(self, n):
+                v = self.visit(n.value)
+                if not isinstance(n.target, ast.Name):
+                    raise Untranslatable("walrus target")
+                binds.append(("let", n.target.id, v))
+                return ast.copy_location(ast.Name(id=n.target.id, ctx=ast.Load()), n)
+
+            def visit_Attribute(self, n):
+                if isinstance(n.value, ast.Name) and env.get(n.value.id) == "url" and n.attr in tr.PROPS:
+                    tr.fresh += 1
+                    nm = f"{n.attr}_{tr.fresh}"
+                    binds.append(("bind", nm, (n.value.id, n.attr)))
+                    return ast.copy_location(ast.Name(id=nm, ctx=ast.Load()), n)
+                return self.generic_visit(n)
+        import copy
+        return H().visit(copy.deepcopy(node))
+
+    def with_binds(self, binds, env, k):
+        """emit the binds, then k(env')"""
+        if not binds:
+            return k(env)
+        kind, nm, what = binds[0]
+        e1 = dict(env)
+        if kind == "bind":
+            obj, prop = what
+            head, t = self.PROPS[prop]
+            if self.rett != "rstr":
+                raise Untranslatable("a property that may raise in a method that returns " + self.rett)
+            e1[nm] = t
+            return f"(match {head} {obj} with Err e => Err e | Ok {nm} => {self.with_binds(binds[1:], e1, k)} end)"
+        v, tv = self.expr(what, env)
+        e1[nm] = tv
+        return f"(let {nm} : {self.COQ[tv]} := {v} in {self.with_binds(binds[1:], e1, k)})"
+
+    def stmts(self, body, env, rec):
+        if not body:
+            raise Untranslatable("a path falls off the end of the function")
+        st, rest = body[0], body[1:]
+        if isinstance(st, ast.Expr) and isinstance(st.value, ast.Constant):
+            return self.stmts(rest, env, rec)
+        # type dispatch on the second operand
+        if isinstance(st, ast.If) and ast.unparse(st.test) == "type(other) is not URL" and len(st.body) == 1 \
+                and ast.unparse(st.body[0]) == "return NotImplemented" and not st.orelse:
+            return self.stmts(rest, env, rec)
+        if isinstance(st, ast.If):
+            binds = []
+            test = self.hoist(st.test, env, binds)
+            return self.with_binds(binds, env, lambda e1: self.branch(
+                test, e1, lambda e2: self.stmts(list(st.body) + rest, e2, rec), lambda e2: self.stmts(list(st.orelse) + rest, e2, rec)))
+        if isinstance(st, ast.Return) and st.value is not None:
+            binds = []
+            val = self.hoist(st.value, env, binds)
+
+            def fin(e1):
+                v, tv = self.expr(val, e1)
+                want = {"rstr": "str", "bool": "bool", "strs": "strs"}[self.rett]
+                if tv != want:
+                    raise Untranslatable(f"return of type {tv} in a method declared {self.rett}")
+                return f"(Ok {v})" if self.rett == "rstr" else v
+            return self.with_binds(binds, env, fin)
+        if isinstance(st, ast.Assign) and len(st.targets) == 1 and isinstance(st.targets[0], ast.Name):
+            binds = []
+            val = self.hoist(st.value, env, binds)
+
+            def fin(e1):
+                v, tv = self.expr(val, e1)
+                e2 = dict(e1)
+                e2[st.targets[0].id] = tv
+                if tv == "none":
+                    return self.stmts(rest, e2, rec)
+                return f"(let {st.targets[0].id} : {self.COQ2(tv)} := {v} in {self.stmts(rest, e2, rec)})"
+            return self.with_binds(binds, env, fin)
+        raise Untranslatable("statement " + ast.unparse(st)[:80])
+
+    def COQ2(self, t):
+        return {"strs": "list str"}.get(t) or self.COQ[t]
+
+    def translate(self, fd):
+        if fd.args.vararg or fd.args.kwarg or fd.args.kwonlyargs or fd.args.posonlyargs or fd.args.defaults or fd.decorator_list:
+            raise Untranslatable("signature of " + fd.name)
+        names = [a.arg for a in fd.args.args]
+        if names not in (["self"], ["self", "other"]):
+            raise Untranslatable("parameters of " + fd.name)
+        env = {n: "url" for n in names}
+        body = self.stmts(list(fd.body), env, {})
+        ps = " ".join(f"({n} : url)" for n in names)
+        rt = {"rstr": "result str", "bool": "bool", "strs": "list str"}[self.rett]
+        return f"Definition gen_{fd.name.strip('_')} {ps} : {rt} :=\n  {body}.", (["url"] * len(names), self.rett)
+
+
 SOURCES = [
     # (source file, output module, header imports, tables usable in "x in TABLE", functions with stub signatures)
     ("_path.py", "PathGen", "From Yarl Require Export Base.PyStr.", (),
@@ -932,7 +1100,14 @@ SOURCES = [
      "From Yarl Require Export Base.PyStr Generated.Tables Model.Parse Model.Host Model.Quoters Model.Path Model.Url Model.GenTypes.\n"
      "Section G.\nVariable O : oracles.\nVariable B : backend.", (),
      [("encode_url", "(url_str : str) : result gen_url", "Err OtherError", "proc"),
-      ("pre_encoded_url", "(url_str : str) : result gen_url", "Err OtherError", "proc")]),
+      ("pre_encoded_url", "(url_str : str) : result gen_url", "Err OtherError", "proc"),
+      ("URL.__str__", "(self : url) : result str", "Err OtherError", "meth", "rstr"),
+      ("URL.__eq__", "(self other : url) : bool", "false", "meth", "bool"),
+      ("URL._cmp_val", "(self : url) : list str", "[]", "meth", "strs"),
+      ("URL.__le__", "(self other : url) : bool", "false", "meth", "bool"),
+      ("URL.__lt__", "(self other : url) : bool", "false", "meth", "bool"),
+      ("URL.__ge__", "(self other : url) : bool", "false", "meth", "bool"),
+      ("URL.__gt__", "(self other : url) : bool", "false", "meth", "bool")]),
 ]
 
 
@@ -944,15 +1119,24 @@ def generate_one(repo, fname, header, tables, wanted):
     try:
         tree = ast.parse(src)
         fds = {n.name: n for n in tree.body if isinstance(n, ast.FunctionDef)}
+        for c in tree.body:
+            if isinstance(c, ast.ClassDef):
+                for n in c.body:
+                    if isinstance(n, ast.FunctionDef):
+                        fds.setdefault(c.name + "." + n.name, n)
     except SyntaxError as e:
         fds = {}
         errors.append("syntax error: " + str(e))
     known = {}
+    methods = {}
     for name, sig, stub, *tree in wanted:
         try:
             if name not in fds:
                 raise Untranslatable("function " + name + " not found")
-            if tree and tree[0] == "proc":
+            if tree and tree[0] == "meth":
+                text, ty = MethFn(tree[1], methods).translate(fds[name])
+                methods[name.split(".")[1]] = tree[1]
+            elif tree and tree[0] == "proc":
                 text, ty = ProcFn().translate(fds[name])
             elif tree:
                 text, ty = TreeFn(tree[0]).translate(fds[name])
@@ -963,7 +1147,7 @@ def generate_one(repo, fname, header, tables, wanted):
         except Untranslatable as e:
             errors.append(name + ": " + str(e))
             out.append(f"(* TRANSLATION FAILED: {str(e).replace('*)', '* )')} *)")
-            out.append(f"Definition gen_{name} {sig} := {stub}.")
+            out.append(f"Definition gen_{name.split('.')[-1].strip('_')} {sig} := {stub}.")
         out.append("")
     if "Section G." in header:
         out.append("End G.")
